@@ -91,17 +91,20 @@ func genStrategy(r *Rng) Strategy {
 }
 
 type Task struct {
-	id      int
-	name    string
-	body    func(t *Task)
-	resume  chan struct{}
-	slot    int  // transport identity (unique in the process)
-	spin    bool // parked by the spin protocol (dyn.go)
-	blocked bool // its last park was a forced one: it waits for somebody else
-	dyn     bool // goroutine started by the code under test (dyn.go)
-	daemon  bool // ... by a package initialiser: survives the runs
-	done    bool
-	prio    int
+	id       int
+	name     string
+	body     func(t *Task)
+	resume   chan struct{}
+	slot     int  // transport identity (unique in the process)
+	spin     bool // parked by the spin protocol (dyn.go)
+	blocked  bool // its last park was a forced one: it waits for somebody else
+	dyn      bool // goroutine started by the code under test (dyn.go)
+	daemon   bool // ... that is older than the current run (started by a package initialiser, or still waiting for somebody when its run ended)
+	initBorn bool // ... by a package initialiser: never unwound
+	victim   bool // being unwound
+	runaway  bool // did not come to rest
+	done     bool
+	prio     int
 
 	inUnit    bool
 	unitKind  string
@@ -259,9 +262,10 @@ func (s *Sim) forceSwitch() {
 				s.deadlock = true
 			}
 		}
-		if t.daemon {
-			// a goroutine that lives as long as the process is never unwound:
-			// it stays parked until the run is over
+		if t.dyn {
+			// a goroutine of the code under test is not unwound with the run
+			// (it may live as long as the process): it stays parked until the
+			// run is over; ambRetire decides afterwards
 			s.park(t, -1)
 			return
 		}
@@ -391,6 +395,16 @@ func (s *Sim) pickNext() *Task {
 	live := s.live()
 	if len(live) == 0 {
 		return nil
+	}
+	if s.stop && s.static > 0 {
+		// the run is over (verdict, budget, deadlock): the harness' own tasks
+		// unwind one after the other; goroutines of the code under test stay
+		// parked (a strategy might pick a parked one for ever)
+		for _, t := range s.tasks[:s.static] {
+			if !t.done {
+				return t
+			}
+		}
 	}
 	switch s.strat.Kind {
 	case "replay":
@@ -623,6 +637,7 @@ func (s *Sim) goDyn(body func()) {
 	s.tasks = append(s.tasks, t)
 	s.dynSpawned++
 	amb.spawned++
+	noteSpawn()
 	startDyn(t, body)
 }
 
